@@ -47,21 +47,33 @@ Fixpoint alloc (t : atree) (h : heap) : heap * ref :=
   end.
 
 (* read the tree below a ref back; fuel bounds the depth (a caller can build cycles: OutOfFuel, Python: RecursionError) *)
+Definition read_step (st : store) (rec : ref -> result atree) (r : ref) : result atree :=
+  match r with
+  | RTok ty v => Ok (ATok ty v)
+  | RTree d c =>
+    match sfind c st with
+    | None => Exn KeyErr
+    | Some rs => do ks <- mapM rec rs ;; Ok (ATree d ks)
+    end
+  end.
 Fixpoint read (fuel : nat) (st : store) (r : ref) : result atree :=
   match fuel with
   | O => Exn OutOfFuel
-  | Datatypes.S f =>
-    match r with
-    | RTok ty v => Ok (ATok ty v)
-    | RTree d c =>
-      match sfind c st with
-      | None => Exn KeyErr
-      | Some rs => do ks <- mapM (read f st) rs ;; Ok (ATree d ks)
-      end
-    end
+  | Datatypes.S f => read_step st (read f st) r
   end.
-(* every path in a store without cycles visits each cell at most once and all cells are below the counter *)
-Definition fuel_of (n : cell) : nat := Pos.to_nat n.
+(* the same with the fuel 2^k, consumed on demand ([iter2 k F g] is F iterated 2^k times on g; the inner iterate is a
+   partial application, so evaluating a read costs the size of the tree read and not the amount of fuel) *)
+Fixpoint iter2 (k : nat) (F : (ref -> result atree) -> ref -> result atree) (g : ref -> result atree) (r : ref)
+  {struct k} : result atree :=
+  match k with
+  | O => F g r
+  | Datatypes.S k' => iter2 k' F (iter2 k' F g) r
+  end.
+Fixpoint bits (p : positive) : nat := match p with xH => 1 | xO q | xI q => Datatypes.S (bits q) end.
+(* every path in a store without cycles visits each cell at most once and all cells are below the counter n < 2^(bits n):
+   [readb n st r = read (2 ^ bits n) st r] (Proofs/C11_cache.v, readb_read) *)
+Definition readb (n : cell) (st : store) (r : ref) : result atree :=
+  iter2 (bits n) (read_step st) (fun _ => Exn OutOfFuel) r.
 
 Fixpoint height (t : atree) : nat :=
   match t with
@@ -139,7 +151,7 @@ Section Run.
 
   Definition do_copy (h : heap) (r : ref) : result (heap * ref) :=
     match mode with
-    | CopyDeep => do t <- read (fuel_of (snd h)) (fst h) r ;; Ok (alloc t h)
+    | CopyDeep => do t <- readb (snd h) (fst h) r ;; Ok (alloc t h)
     | CopyShallow | NoCopy => Ok (h, r)
     end.
 
@@ -147,7 +159,7 @@ Section Run.
   Definition finish_parse (x : state) (r : ref) : state * list observation :=
     match do_copy (st_store x, st_next x) r with
     | Exn e => (x, [OParse (Exn e)])
-    | Ok (h', r') => (push_handle r' (set_heap h' x), [OParse (read (fuel_of (snd h')) (fst h') r')])
+    | Ok (h', r') => (push_handle r' (set_heap h' x), [OParse (readb (snd h') (fst h') r')])
     end.
 
   Definition step_parse (x : state) (p : parser) (s : N) : state * list observation :=
@@ -208,7 +220,7 @@ Section Run.
     | Edit h path e => (step_edit x h path e, [])
     | Peek h => (x, [OPeek (match nth_error (st_handles x) h with
                             | None => Exn KeyErr
-                            | Some r => read (fuel_of (st_next x)) (st_store x) r
+                            | Some r => readb (st_next x) (st_store x) r
                             end)])
     end.
 
